@@ -206,4 +206,8 @@ def hostile_array(A, h):
         return R
     if k == 6 and A.size and bool(((A == 0) | (A == 1)).all()):
         return A.astype(_DTYPES_BINARY[(h // 8) % len(_DTYPES_BINARY)])
+    if k == 7 and A.dtype.kind == "f" and A.size:
+        Z = A.copy()
+        Z[Z == 0] = -0.0          # negative zeros are zeros: no edge
+        return Z
     return A
